@@ -609,8 +609,62 @@ func bucket(n int) string {
 	}
 }
 
+// ---- JSON number / string forms -----------------------------------------------------------------------
+
+func codecAmountText(c *Ctx, a *big.Int) {
+	s := a.String()
+	back := common.StringToBigInt(s)
+	c.Emit("amount-json %s | %s %s", a.String(), s, back.String())
+	if back.Cmp(a) != 0 {
+		c.Fail("amount %s does not survive String()/StringToBigInt: %s", a, back)
+	}
+	c.Hit("amount-json")
+}
+
+var oddAmountStrings = []string{"", "0", "-0", "+0", "+5", "-5", "007", "1_000", "0x10", " 5", "5 ", "5.0", "1e3", "--5", "+-5", "-", "+",
+	"٣", "١٢٣", "12a", "a", "<nil>", "0b1", "0o7", "00", "-007", "18446744073709551616", "５"}
+
+func codecAmountParse(c *Ctx, s string) {
+	c.Emit("amount-parse %s | %s", hx([]byte(s)), common.StringToBigInt(s).String())
+	c.Hit("amount-parse")
+}
+
+func codecNonceText(c *Ctx, n nom.Nonce) {
+	txt, _ := n.MarshalText()
+	var back nom.Nonce
+	err := back.UnmarshalText(txt)
+	if err != nil {
+		c.Emit("nonce-json %s | %s err", hx(n.Data[:]), txt)
+		c.Fail("nonce %x does not survive MarshalText/UnmarshalText: %v", n.Data, err)
+		return
+	}
+	c.Emit("nonce-json %s | %s ok %s", hx(n.Data[:]), txt, hx(back.Data[:]))
+	if back != n {
+		c.Fail("nonce %x changes through MarshalText/UnmarshalText: %x", n.Data, back.Data)
+	}
+	c.Hit("nonce-json")
+}
+
+func codecNonceParse(c *Ctx, s string) {
+	var back nom.Nonce
+	if err := back.UnmarshalText([]byte(s)); err != nil {
+		c.Emit("nonce-parse %s | err", hx([]byte(s)))
+		c.Hit("nonce-parse-err")
+	} else {
+		c.Emit("nonce-parse %s | ok %s", hx([]byte(s)), hx(back.Data[:]))
+		c.Hit("nonce-parse-ok")
+	}
+}
+
 func init() {
 	register("codec", func(c *Ctx) {
+		for _, s := range oddAmountStrings {
+			codecAmountParse(c, s)
+		}
+		for _, s := range []string{"", "00", "0011223344556677", "0011223344556677ff", "00112233445566", "0011223344556G77", "AABBCCDDEEFF0011",
+			"aAbBcCdDeEfF0011", "001122334455667", " 011223344556677", "0x11223344556677"} {
+			codecNonceParse(c, s)
+		}
 		// fixed corner cases first
 		zero := &nom.AccountBlock{}
 		codecBlockCase(c, zero)
@@ -636,6 +690,44 @@ func init() {
 				codecMomentumCase(c, m, blocks)
 			default:
 				codecBlockCase(c, cRandBlock(c, 3, i%4 == 3))
+			}
+			if i%3 == 0 {
+				a := cRandAmount(c, true)
+				if a == nil {
+					a = big.NewInt(0)
+				}
+				codecAmountText(c, a)
+				var n nom.Nonce
+				if c.R.Intn(4) != 0 {
+					c.R.Read(n.Data[:])
+				}
+				codecNonceText(c, n)
+			}
+			if i%16 == 0 {
+				// digit strings with an occasional foreign character
+				alphabet := "0123456789"
+				if c.R.Intn(2) == 0 {
+					alphabet = "0123456789+-_ xabAF."
+				}
+				l := c.R.Intn(12)
+				bs := make([]byte, l)
+				for k := range bs {
+					bs[k] = alphabet[c.R.Intn(len(alphabet))]
+				}
+				codecAmountParse(c, string(bs))
+				hexa := "0123456789abcdefABCDEF"
+				if c.R.Intn(4) == 0 {
+					hexa += "gG x"
+				}
+				l = 16
+				if c.R.Intn(4) == 0 {
+					l = 12 + c.R.Intn(8)
+				}
+				bs = make([]byte, l)
+				for k := range bs {
+					bs[k] = hexa[c.R.Intn(len(hexa))]
+				}
+				codecNonceParse(c, string(bs))
 			}
 		}
 	})
